@@ -33,6 +33,8 @@ const (
 	fitShapes
 	// fitTiny is used by C09 / C10 only: positive values around the bottom of the float64 range (subnormal shared fitness)
 	fitTiny = 100
+	// fitZeroSpecies (C09 / C10): every organism of every third species has fitness zero, the others uniform values
+	fitZeroSpecies = 101
 )
 
 var fitNames = []string{"all-zero", "constant", "uniform", "log-normal", "one-dominant", "stagnating", "distinct-positive", "huge (sum overflows)"}
@@ -66,6 +68,9 @@ type EvoScenario struct {
 func fitName(shape int) string {
 	if shape == fitTiny {
 		return "tiny (subnormal shares)"
+	}
+	if shape == fitZeroSpecies {
+		return "whole species at zero"
 	}
 	return fitNames[shape]
 }
@@ -169,6 +174,11 @@ func assignFitness(r *rand.Rand, shape, gen int, pop *genetics.Population) {
 			}
 		case fitDistinct:
 			org.Fitness = math.Exp(r.NormFloat64()*2) + float64(i+1)*1e-7
+		case fitZeroSpecies:
+			org.Fitness = r.Float64() * 7
+			if org.Species != nil && org.Species.Id%3 == gen%3 {
+				org.Fitness = 0
+			}
 		case fitTiny:
 			org.Fitness = (1 + r.Float64()*9) * 1e-308 * pick(r, 1.0, 0.1, 0.01)
 		case fitHuge:
